@@ -31,6 +31,19 @@ CHECKS = {
              "the stated unambiguity condition and that a locked decoder equals that decoder forever after.",
         note="Dictionary represented by its contract (symbolic answer); std dictionary content not verified here. Backtrace stubbed.",
     ),
+    "C15": dict(
+        technique="Verus contracts on the extracted lookup and indexing functions with the registry abstracted to a Map/Set view",
+        text="Unbounded proof, for all 2^32 tags and any table content, that the lookup follows the stated precedence; the generated "
+             "table's content is a finite fact not decided by this technique.",
+        note="std HashMap/HashSet, Option::or_else and the lazy static are assumed; table content, keywords and UID dictionaries uncovered.",
+    ),
+    "C18": dict(
+        technique="Verus loop invariant on the extracted default PixelDataWriter::encode; Kani bounded harnesses for Fragments::new / From<Vec<Fragments>>",
+        text="Unbounded proof (any number of frames, any frame sizes) that the multi-frame encode driver builds the PS3.5 A.4 basic "
+             "offset table; the Fragments helpers are only bounded-checked (concrete small lengths) and are not counted as proved.",
+        note="encode_frame is an abstract callee; Fragments units are BOUNDED (listed under coverage.bounded_units). Total-length "
+             "attribute and frame_pixel_data are not covered.",
+    ),
     "C26": dict(
         technique="Verus contracts (requires/ensures + representation invariant) on the extracted text of the synchronous P-DATA writer",
         text="Unbounded proof, for every payload, max PDU length and chunking, that each PDU handed to the transport is a "
@@ -65,10 +78,8 @@ NOT_APPLICABLE = {
     "C11": "check not built yet in this session (planned in DESIGN.md section 7); not claimed until its check runs",
     "C12": "check not built yet in this session (planned in DESIGN.md section 7); not claimed until its check runs",
     "C14": "check not built yet in this session (planned in DESIGN.md section 7); not claimed until its check runs",
-    "C15": "check not built yet in this session (planned in DESIGN.md section 7); not claimed until its check runs",
     "C16": "check not built yet in this session (planned in DESIGN.md section 7); not claimed until its check runs",
     "C17": "check not built yet in this session (planned in DESIGN.md section 7); not claimed until its check runs",
-    "C18": "check not built yet in this session (planned in DESIGN.md section 7); not claimed until its check runs",
     "C20": "check not built yet in this session (planned in DESIGN.md section 7); not claimed until its check runs",
     "C22": "check not built yet in this session (planned in DESIGN.md section 7); not claimed until its check runs",
     "C25": "check not built yet in this session (planned in DESIGN.md section 7); not claimed until its check runs",
